@@ -127,3 +127,51 @@ impl Emit for ModuleDebugData {
             .expect("never");
     }
 }
+
+/// Verification hooks: thin wrappers exposing the crate-private DWARF address
+/// classification and conversion to an external harness. Compiled only with
+/// `--cfg walrus_verif`.
+#[cfg(walrus_verif)]
+#[allow(missing_docs)]
+pub mod verif_hooks {
+    use super::dwarf::AddressSearchPreference;
+    use super::expression::{CodeAddress, CodeAddressConverter, CodeAddressGenerator};
+    use crate::{CodeTransform, ModuleFunctions};
+
+    /// (class, function-or-instr payload, offset): class 0 = InstrInFunction,
+    /// 1 = InstrEdge, 2 = OffsetInFunction, 3 = FunctionEdge, 4 = Unknown.
+    pub fn find_address(
+        funcs: &ModuleFunctions,
+        address: usize,
+        inclusive_function_end: bool,
+    ) -> (u8, usize, usize) {
+        let pref = if inclusive_function_end {
+            AddressSearchPreference::InclusiveFunctionEnd
+        } else {
+            AddressSearchPreference::ExclusiveFunctionEnd
+        };
+        match CodeAddressGenerator::new(funcs).find_address(address, pref) {
+            CodeAddress::InstrInFunction { instr_id } => (0, instr_id.data() as usize, 0),
+            CodeAddress::InstrEdge { instr_id } => (1, instr_id.data() as usize, 0),
+            CodeAddress::OffsetInFunction { id, offset } => (2, id.index(), offset),
+            CodeAddress::FunctionEdge { id } => (3, id.index(), 0),
+            CodeAddress::Unknown => (4, 0, 0),
+        }
+    }
+
+    /// The composition used by the DWARF emitter: classify, then convert.
+    pub fn convert_address(
+        funcs: &ModuleFunctions,
+        code_transform: &CodeTransform,
+        address: usize,
+        inclusive_function_end: bool,
+    ) -> Option<usize> {
+        let pref = if inclusive_function_end {
+            AddressSearchPreference::InclusiveFunctionEnd
+        } else {
+            AddressSearchPreference::ExclusiveFunctionEnd
+        };
+        let code = CodeAddressGenerator::new(funcs).find_address(address, pref);
+        CodeAddressConverter::new(code_transform).find_address(code)
+    }
+}
